@@ -197,11 +197,17 @@ class ModelRunner:
                                   stdin=subprocess.PIPE, stdout=subprocess.PIPE, text=True, bufsize=1)
         self.oracle = oracle
         self.queries = 0
+        self.timeout = 120
 
     def ask(self, cmd, *args):
         self.p.stdin.write(" ".join([cmd] + [str(a) for a in args]) + "\n")
         self.p.stdin.flush()
+        import select
         while True:
+            rd, _, _ = select.select([self.p.stdout], [], [], self.timeout)
+            if not rd:
+                self.p.kill()
+                raise RuntimeError("model runner did not answer within %ss on %s %r" % (self.timeout, cmd, [str(a)[:80] for a in args[:3]]))
             line = self.p.stdout.readline()
             if not line:
                 raise RuntimeError("model runner died on %s %r" % (cmd, args[:3]))
